@@ -307,7 +307,11 @@ func (r *renderer) expr(e *N, operand bool) {
 		r.t("}")
 	case EBin:
 		r.expr(e.A[0], true)
-		r.nlafter(e.Op)
+		if e.Op == "in" || e.Op == "not in" {
+			r.t(e.Op) // the statement names symbolic operators only
+		} else {
+			r.nlafter(e.Op)
+		}
 		r.expr(e.A[1], true)
 	case EPre:
 		r.t(e.Op)
